@@ -610,7 +610,175 @@ fn run_program(seed: u64, hid: u64, maxops: usize) {
         line!("X neighbour_disturbed_at_end");
     }
     drop(w);
+    // the zero-sized section (its own arena: the main one is still borrowed by nothing, but keep it apart)
+    let zb = Bump::new();
+    let nz = 3 + rng.usize_below(12);
+    for l in run_zst(&mut rng, &zb, nz) {
+        line!("{}", l);
+    }
     line!("E");
+}
+
+
+// ---------------------------------------------------------------- zero-sized elements
+// A second, smaller differential inside every history: the same operations on
+// Vec<Zt> where Zt is zero-sized and counts its drops.  No model here (the
+// Coq model assumes a positive element size): bumpalo against std only.
+thread_local! {
+    static ZDROPS: Cell<u64> = Cell::new(0);
+}
+#[derive(PartialEq, Debug)]
+struct Zt;
+impl Drop for Zt {
+    fn drop(&mut self) {
+        ZDROPS.with(|d| d.set(d.get() + 1));
+    }
+}
+impl Clone for Zt {
+    fn clone(&self) -> Zt {
+        Zt
+    }
+}
+struct HintIter {
+    left: usize,
+    hint: usize,
+}
+impl Iterator for HintIter {
+    type Item = Zt;
+    fn next(&mut self) -> Option<Zt> {
+        if self.left == 0 {
+            None
+        } else {
+            self.left -= 1;
+            Some(Zt)
+        }
+    }
+    fn size_hint(&self) -> (usize, Option<usize>) {
+        (self.hint.min(self.left), None)
+    }
+}
+
+#[derive(Clone, Debug)]
+enum ZOp {
+    Push,
+    Pop,
+    Insert(usize),
+    Remove(usize),
+    SwapRemove(usize),
+    Truncate(usize),
+    Clear,
+    Reserve(usize),
+    Drain(Bound<usize>, Bound<usize>, usize, usize),
+    Retain(Vec<Ans>),
+    Dedup,
+    Resize(usize),
+    Extend(usize, usize),
+    ExtendFromSlice(usize),
+    Append(usize),
+    SplitOff(usize),
+    IntoIter(usize, usize),
+    Splice(Bound<usize>, Bound<usize>, usize, usize),
+    CloneVec,
+}
+
+macro_rules! zapply {
+    ($v:ident, $op:expr, $mk_new:expr, $mk_n:expr) => {{
+        match $op {
+            ZOp::Push => { $v.push(Zt); "unit".to_string() }
+            ZOp::Pop => match $v.pop() { Some(z) => { std::mem::forget(z); "some".to_string() } None => "none".to_string() },
+            ZOp::Insert(i) => { $v.insert(*i, Zt); "unit".to_string() }
+            ZOp::Remove(i) => { std::mem::forget($v.remove(*i)); "some".to_string() }
+            ZOp::SwapRemove(i) => { std::mem::forget($v.swap_remove(*i)); "some".to_string() }
+            ZOp::Truncate(n) => { $v.truncate(*n); "unit".to_string() }
+            ZOp::Clear => { $v.clear(); "unit".to_string() }
+            ZOp::Reserve(n) => { $v.reserve(*n); format!("cap_ok:{}", $v.capacity() >= $v.len() + *n) }
+            ZOp::Drain(s, e, front, back) => {
+                let mut d = $v.drain((s.clone(), e.clone()));
+                let (mut f, mut b) = (0, 0);
+                for _ in 0..*front { if let Some(z) = d.next() { std::mem::forget(z); f += 1; } }
+                for _ in 0..*back { if let Some(z) = d.next_back() { std::mem::forget(z); b += 1; } }
+                let left = d.len();
+                drop(d);
+                format!("front:{};back:{};left:{}", f, b, left)
+            }
+            ZOp::Retain(a) => { let mut sc = Script { ans: a.clone(), pos: 0 }; $v.retain(|_| !sc.next()); "unit".to_string() }
+            ZOp::Dedup => { $v.dedup(); "unit".to_string() }
+            ZOp::Resize(n) => { $v.resize(*n, Zt); "unit".to_string() }
+            ZOp::Extend(n, hint) => { $v.extend(HintIter { left: *n, hint: *hint }); "unit".to_string() }
+            ZOp::ExtendFromSlice(n) => { let src: Vec<Zt> = (0..*n).map(|_| Zt).collect(); $v.extend_from_slice(&src); std::mem::forget(src); "unit".to_string() }
+            ZOp::Append(n) => { let mut o = $mk_n(*n); $v.append(&mut o); format!("other_len:{}", o.len()) }
+            ZOp::SplitOff(at) => { let o = $v.split_off(*at); let n = o.len(); for z in o { std::mem::forget(z); } format!("off:{}", n) }
+            ZOp::IntoIter(front, back) => {
+                let old = std::mem::replace(&mut $v, $mk_new);
+                let mut it = old.into_iter();
+                let hint0 = it.size_hint().0;
+                let (mut f, mut b) = (0, 0);
+                for _ in 0..*front { if let Some(z) = it.next() { std::mem::forget(z); f += 1; } }
+                for _ in 0..*back { if let Some(z) = it.next_back() { std::mem::forget(z); b += 1; } }
+                let left = it.len();
+                drop(it);
+                format!("hint:{};front:{};back:{};left:{}", hint0, f, b, left)
+            }
+            ZOp::Splice(s, e, n, hint) => {
+                let removed: Vec<Zt> = $v.splice((s.clone(), e.clone()), HintIter { left: *n, hint: *hint }).collect();
+                let k = removed.len();
+                std::mem::forget(removed);
+                format!("removed:{}", k)
+            }
+            ZOp::CloneVec => { let c = $v.clone(); let n = c.len(); std::mem::forget(c); format!("len:{}", n) }
+        }
+    }};
+}
+
+fn gen_zop(rng: &mut Rng, len: usize) -> ZOp {
+    match rng.below(22) {
+        0 | 1 | 2 => ZOp::Push,
+        3 => ZOp::Pop,
+        4 => ZOp::Insert(pick_index(rng, len)),
+        5 => ZOp::Remove(pick_index(rng, len)),
+        6 => ZOp::SwapRemove(pick_index(rng, len)),
+        7 => ZOp::Truncate(pick_index(rng, len)),
+        8 => if rng.chance(1, 4) { ZOp::Clear } else { ZOp::Dedup },
+        9 => ZOp::Reserve(rng.usize_below(40)),
+        10 => ZOp::Drain(pick_bound(rng, len), pick_bound(rng, len), rng.usize_below(3), rng.usize_below(3)),
+        11 => ZOp::Retain(script(rng, len, true)),
+        12 => ZOp::Resize(rng.usize_below(2 * len + 4)),
+        13 | 14 => ZOp::Extend(rng.usize_below(9), rng.usize_below(4)),
+        15 => ZOp::ExtendFromSlice(rng.usize_below(9)),
+        16 => ZOp::Append(rng.usize_below(6)),
+        17 => ZOp::SplitOff(pick_index(rng, len)),
+        18 | 19 => ZOp::IntoIter(rng.usize_below(3), rng.usize_below(3)),
+        20 => ZOp::Splice(pick_bound(rng, len), pick_bound(rng, len), rng.usize_below(8), rng.usize_below(3)),
+        _ => ZOp::CloneVec,
+    }
+}
+
+/// returns the lines of the zero-sized section of a history
+fn run_zst(rng: &mut Rng, bump: &Bump, nops: usize) -> Vec<String> {
+    let mut lines = Vec::new();
+    let mut bv: BVec<Zt> = BVec::new_in(bump);
+    let mut sv: Vec<Zt> = Vec::new();
+    for k in 0..nops {
+        let op = gen_zop(rng, sv.len());
+        ZDROPS.with(|d| d.set(0));
+        let rs = catch_unwind(AssertUnwindSafe(|| zapply!(sv, &op, Vec::new(), |n: usize| (0..n).map(|_| Zt).collect::<Vec<Zt>>())));
+        let ds = ZDROPS.with(|d| d.replace(0));
+        let rb = catch_unwind(AssertUnwindSafe(|| zapply!(bv, &op, BVec::new_in(bump), |n: usize| { let mut o = BVec::new_in(bump); for _ in 0..n { o.push(Zt); } o })));
+        let db = ZDROPS.with(|d| d.replace(0));
+        let so = match &rs { Ok(r) => r.clone(), Err(_) => "panic".to_string() };
+        let bo = match &rb { Ok(r) => r.clone(), Err(_) => "panic".to_string() };
+        lines.push(format!("Y {} {:?} | {} {} {} | {} {} {}", k, op, bo, bv.len(), db, so, sv.len(), ds).replace('\n', " "));
+        if (rs.is_err() || rb.is_err()) && !(rs.is_err() && rb.is_err() && bv.len() == sv.len()) {
+            break;
+        }
+    }
+    ZDROPS.with(|d| d.set(0));
+    let n = bv.len();
+    drop(bv);
+    let db = ZDROPS.with(|d| d.replace(0));
+    lines.push(format!("Y end drop | unit 0 {} | unit 0 {}", db, n));
+    std::mem::forget(sv);
+    lines
 }
 
 #[derive(Clone)]
